@@ -500,6 +500,11 @@ func (g *gen) hostileBencode() ([]byte, string) {
 		return []byte(fmt.Sprintf("d1:v%d:abce", n)), "declared-long"
 	case 1: // deep nesting
 		d := 50 + r.Intn(400)
+		if r.Intn(3) == 0 {
+			// deep enough for the recursive decoder's cost per level to dwarf the frame
+			// (a megabyte of these overflows the stack; that cannot be run in-process)
+			d = []int{3000, 10000, 20000}[r.Intn(3)]
+		}
 		return []byte("d1:x" + strings.Repeat("l", d) + strings.Repeat("e", d) + "e"), "deep"
 	case 2: // unterminated
 		return []byte("d1:vi5"), "unterminated"
